@@ -594,6 +594,11 @@ class HtmlTreeView(HtmlView):
         return type(value).__name__
       return f'{type(value).__name__}(...)'
 
+    title = title or make_title(value)
+    if not isinstance(title, Html):
+      # A str title is data and shall be escaped; an Html title is markup.
+      title = Html.escape(title)
+
     if name is not None:
       summary_color = self.get_color(
           summary_color, KeyPath(name, root_path), value, parent
@@ -628,7 +633,7 @@ class HtmlTreeView(HtmlView):
             Html.element(
                 'div',
                 [
-                    title or make_title(value),
+                    title,
                 ],
                 css_classes=['summary-title', css_classes],
             ),
